@@ -177,10 +177,11 @@ CLAIMED.update({
             'xml/jigg_xml (C15), auto_extended (independent Lean decoder reads every printed line back to words/shape/categories/'
             'labels/head flags/attributes), conll heads (= the head assignment implied by the head flags: one root, every other '
             'word attached inside its parent span), json (shape/categories/labels/attributes), deriv (rule-line extents = leaf '
-            'column intervals, post-order), record numbering by sentence for every line format and prolog. All eleven printers '
-            'but html are modelled to the character / element and diffed against the real to_string; eleven independent Python '
+            'column intervals, post-order), html (a Lean reader decodes the MathML of every tree back to nesting, words, labels and '
+            'category segments), record numbering by sentence for every line format and prolog. All twelve printers '
+            'are modelled to the character / element and diffed against the real to_string; eleven independent Python '
             'decoders compare each real output with the derivation in the format\'s own spelling.',
-            TEXT_NOTE + ' html has no Lean model and the Prolog term reader lives in the oracle (partial, named in the evidence); '
+            TEXT_NOTE + ' html is modelled and decoded in Lean (html_decode); the Prolog term reader and the full deriv decoder live in the oracle (partial, named in the evidence); '
             'float formatting of the header scores is a parameter.',
             'DESIGN.md §4 C07'),
     'C19': (T_PROOF,
